@@ -98,6 +98,9 @@ Proof. cbn. apply name_eqb_spec. reflexivity. Qed.
 Lemma pres_comp_is_refl c : pres_comp_is (POk c) c = true.
 Proof. cbn. apply comp_eqb_spec. reflexivity. Qed.
 
+Theorem model_brt_ok n : name_wf n -> brt_ok n (name_from_bytes (name_bytes n)) = true.
+Proof. intros H. rewrite (name_from_bytes_enc n H). cbn. apply name_eqb_spec. reflexivity. Qed.
+
 Theorem model_rt_ok n : rt_ok n (name_from_str (name_to_str n)) = true.
 Proof.
   unfold rt_ok. destruct (uri_wfb n) eqn:E.
